@@ -141,8 +141,8 @@ def residual_cases(ctx, rng, scale, add, dist, failures):
     from vector_quantize_pytorch import ResidualVQ
     n = (10 if not ctx.thorough else 80) * scale
     for ci in range(n):
-        shared = rng.random() < 0.3
-        implicit = (not shared) and rng.random() < 0.3
+        shared = ci % 3 == 1
+        implicit = ci % 3 == 2
         d = rng.choice([2, 3])
         nq = rng.choice([2, 3])
         K = rng.choice([3, 5]) if rng.random() < 0.7 or shared else None
@@ -162,7 +162,7 @@ def residual_cases(ctx, rng, scale, add, dist, failures):
             for layer in (rvq.layers[:1] if shared else rvq.layers):
                 vqrec.set_codebook_grid(layer, rng)
         rvq.eval()
-        x = vqrec.grid(rng, (2, 3, d)) if exact else torch.randn(2, 3, d)
+        x = vqrec.grid(rng, (2, 3, d)) if exact else torch.randn(3, 4, d)
         cbs = []
         for layer in rvq.layers:
             if layer._codebook not in cbs:
